@@ -612,8 +612,9 @@ class Runner:
     def __init__(self, ck, exe, model, tmpd):
         self.ck, self.exe, self.model, self.tmpd = ck, exe, model, tmpd
     def impl(self, groups, tag="impl"):
-        res = run_cases(self.exe, [[l for l, _ in G] for G in groups], os.path.join(self.tmpd, tag + "_in.txt"))
-        return res
+        # tiny matrices: one thread (the OpenMP / OpenBLAS pools only spin on a shared machine); results do not depend on it
+        return run_cases(self.exe, [[l for l, _ in G] for G in groups], os.path.join(self.tmpd, tag + "_in.txt"),
+                         env={"OMP_NUM_THREADS": "1", "OPENBLAS_NUM_THREADS": "1"})
     def run(self, groups, tag="main", with_model=True):
         """returns per group: (cases, outs, monitor findings, disagreements)"""
         io = self.impl(groups, tag)
